@@ -579,4 +579,93 @@ def inFragment (inputs : List String) (defs : List (String × BExp)) (rets : Lis
       overInputs inputs e && treeLike e && rets.all (· == r)
   | _ => false
 
+/-! ## The widened classes of the semantic fragment theorems
+(`QV.C02.C02_fragment_consts`, `C02_fragment_multi`, `C02_fragment_named`; proofs in `QV/Proofs/CompilerSem2*.lean`) -/
+
+mutual
+/-- the keys `compile_expr` looks up in / adds to the expression cache while compiling an expression: its
+`Not` / `And` / `Or` / `Xor` sub-expressions, with repetitions (constants and symbols are answered before the
+cache is consulted, steps 1 and 2 of `compile_expr`) -/
+def compKeys : BExp → List BExp
+  | .not a => .not a :: compKeys a
+  | .and l => .and l :: compKeysList l
+  | .or l => .or l :: compKeysList l
+  | .xor l => .xor l :: compKeysList l
+  | _ => []
+def compKeysList : List BExp → List BExp
+  | [] => []
+  | a :: as => compKeys a ++ compKeysList as
+end
+
+/-- symbol or constant: compiled without a gate on a scratch qubit -/
+def isLeaf : BExp → Bool
+  | .sym _ => true
+  | .tt => true
+  | .ff => true
+  | _ => false
+
+/-- an argument `compile_xor` cannot accumulate: a constant or `Not` of a constant (`compile_expr` answers
+with the constant's qubit, which the loop then takes as its accumulator – event `xorRepl`) -/
+def xorArgBad : BExp → Bool
+  | .tt => true
+  | .ff => true
+  | .not .tt => true
+  | .not .ff => true
+  | _ => false
+
+mutual
+/-- expressions of the widened classes: symbols of `scope`, constants, `Not` / `And` / `Or` / `Xor`; no constant
+(or negated constant) directly under `Xor`.  With `lax = false` (the multi-definition classes, where freed
+ancillas are re-used) additionally: every `Or` has one or two arguments, or only compound arguments (De
+Morgan's `X… MCX X…` on a symbol's qubit is not undone by the inline `uncompute`, which replays the `MCX` but
+not the `X` gates – finding `C02-uncompute-stale`); no `Or` / `Xor` without arguments (its ancilla is never the
+target of a gate, so `uncompute` frees it but leaves it marked) -/
+def wfExp (scope : List String) (lax : Bool) : BExp → Bool
+  | .sym n => scope.contains n
+  | .tt => true
+  | .ff => true
+  | .not a => wfExp scope lax a
+  | .and l => wfExpList scope lax l
+  | .or l => wfExpList scope lax l &&
+      (lax || (!l.isEmpty && (decide (l.length ≤ 2) || l.all (fun a => !isLeaf a))))
+  | .xor l => wfExpList scope lax l && l.all (fun a => !xorArgBad a) && (lax || !l.isEmpty)
+  | _ => false
+def wfExpList (scope : List String) (lax : Bool) : List BExp → Bool
+  | [] => true
+  | a :: as => wfExp scope lax a && wfExpList scope lax as
+end
+
+/-- class (a) – `QV.C02.C02_fragment_consts`: `inFragment` plus the constants `True` / `False` anywhere in the
+expression except directly (or under one `Not`) as an argument of `Xor`, and as the whole right-hand side;
+the defined name is not `TRUE` / `FALSE` -/
+def inFragmentConst (inputs : List String) (defs : List (String × BExp)) (rets : List String) : Bool :=
+  match defs with
+  | [(r, e)] =>
+    decide inputs.Nodup && inputs.all (fun n => n != r && !reservedName n) && r != "TRUE" && r != "FALSE" &&
+      wfExp inputs true e && distinctB (compKeys e) && rets.all (· == r)
+  | _ => false
+
+/-- a straight-line definition list: every left-hand side is a new, not reserved name; every right-hand side
+reads only arguments and earlier left-hand sides and is in the expression class with `wideOr = false` -/
+def slDefs (scope : List String) : List (String × BExp) → Bool
+  | [] => true
+  | (r, e) :: rest => !reservedName r && !scope.contains r && wfExp scope false e && slDefs (scope ++ [r]) rest
+
+/-- class (c) – `QV.C02.C02_fragment_named` (final uncomputation off): straight-line definition lists with
+named intermediates (`m0 = e0; _ret = f(m0, args)`, each intermediate read any number of times), argument
+names distinct and not reserved, no cache key occurring twice in the whole list (within or across
+definitions), every requested return name defined -/
+def inFragmentNamed (inputs : List String) (defs : List (String × BExp)) (rets : List String) : Bool :=
+  decide inputs.Nodup && inputs.all (fun n => !reservedName n) && slDefs inputs defs &&
+    distinctB (defs.flatMap (fun p => compKeys p.2)) && rets.all (fun r => defs.any (fun p => p.1 == r))
+
+/-- class (b) – `QV.C02.C02_fragment_multi` (final uncomputation off): several definitions, each an
+independent tree over the arguments alone -/
+def inFragmentMulti (inputs : List String) (defs : List (String × BExp)) (rets : List String) : Bool :=
+  inFragmentNamed inputs defs rets && defs.all (fun p => wfExp inputs false p.2)
+
+/-- what the driver reports as `in_fragment`: some semantic fragment theorem of `QV.C02` applies to the run -/
+def inAnyFragment (inputs : List String) (defs : List (String × BExp)) (rets : List String) (unc : Bool) : Bool :=
+  inFragment inputs defs rets || inFragmentConst inputs defs rets || (!unc && inFragmentNamed inputs defs rets)
+
 end QV.Compiler
